@@ -27,8 +27,9 @@ def check_bitmap(ctx, prog, R):
             if own_write:
                 writers.append(fn)
     expected = {R.need("HDR_INIT_HTX").id, R.need("HTX_OPEN").id, R.need("CNT_WRITE").id, store.id}
-    allowed_unused = {f.id for f in prog.fns.values() if f.module == M_HTX and f.name == "_read_hash_buckets_size"}
     got = {f.id for f in writers}
+    # a writer nobody calls (the mis-named, unused bucket-count writer of the pinned tree) cannot bypass anything
+    allowed_unused = {i for i in got - expected if not prog.callers().get(i)}
     extra = got - expected - allowed_unused
     ctx.check(not extra, "htx-writers", "inventory",
               "new function(s) write into the hash-table file: %s; only the header initialiser, the open (tail zero), the count writer "
